@@ -2690,11 +2690,31 @@ char*
 ppl_io_wrap_string(const char* src,
                    unsigned indent_depth,
                    unsigned preferred_first_line_length,
-                   unsigned preferred_line_length) {
+                   unsigned preferred_line_length) try {
   using namespace IO_Operators;
   return strdup(wrap_string(src, indent_depth,
                             preferred_first_line_length,
                             preferred_line_length).c_str());
+}
+// No error code can be returned here: on any exception the error handler
+// is notified and, as when the allocation of the buffer fails, a null
+// pointer is returned.
+catch (const std::bad_alloc& e) {
+  notify_error(PPL_ERROR_OUT_OF_MEMORY, e.what());
+  return nullptr;
+}
+catch (const std::length_error& e) {
+  notify_error(PPL_ERROR_LENGTH_ERROR, e.what());
+  return nullptr;
+}
+catch (const std::exception& e) {
+  notify_error(PPL_ERROR_UNKNOWN_STANDARD_EXCEPTION, e.what());
+  return nullptr;
+}
+catch (...) {
+  notify_error(PPL_ERROR_UNEXPECTED_ERROR,
+               "completely unexpected error: a bug in the PPL");
+  return nullptr;
 }
 
 int
